@@ -613,6 +613,29 @@ class Unit:
                 extra = [x for x in add[0].split(",") if x not in have]
                 txt = txt[:m.start(1)] + ", ".join(have + extra) + txt[m.end(1):]
             self.counts.add("R5.derive-added")
+        kv = [o.split("=", 1)[1].split(",") for o in opts if o.startswith("keepvariants=")]
+        if kv:
+            toks = lex(txt)
+            ob = next(k for k, t in enumerate(toks) if t.text == "{")
+            cb = match_close(toks, ob)
+            variants, cur, depth = [], [], 0
+            for t in toks[ob + 1:cb]:
+                if t.kind == "p" and t.text in "({[": depth += 1
+                if t.kind == "p" and t.text in ")}]": depth -= 1
+                if t.kind == "p" and t.text == "," and depth == 0:
+                    variants.append(cur); cur = []
+                else:
+                    cur.append(t)
+            if any(t.kind in CODE for t in cur): variants.append(cur)
+            kept = []
+            for vts in variants:
+                vname = next((t.text for t in vts if t.kind == "id"), None)
+                if vname in kv[0]:
+                    kept.append(toks_text(vts).strip("\n"))
+                else:
+                    self.dropped.append("enum %s: variant `%s` dropped (not used by this unit)" % (name, vname))
+            txt = toks_text(toks[:ob + 1]) + "\n" + ",\n".join(kept) + ",\n}"
+            txt = re.sub(r"#\[derive\([^)]*\)\]\s*", "", txt)
         if "clonespec" in opts:
             txt = clone_spec(txt, name, self.counts)
         self.emit(txt, name, None, "item", src="%s:%d" % (rel, s.line_of(s.toks[it["kw"]].start)))
@@ -822,17 +845,24 @@ class Unit:
             sig = "fn %s<F: %s>(%s%sdbs: &Arc<Databases>, client: &Client, opp: &F) -> (r: Response)" % (
                 name, ftype, ", ".join(params), ", " if params else "")
         else:
-            sig = "fn %s(%s%sdbs: &Arc<Databases>, client: &%sClient) -> (r: Response)" % (
-                name, ", ".join(params), ", " if params else "", "mut " if "mutclient" in opts else "")
+            sig = "fn %s(%s%sdbs: %s, client: &%sClient) -> (r: Response)" % (
+                name, ", ".join(params), ", " if params else "", "&mut Databases" if "mutdbs" in opts else "&Arc<Databases>",
+                "mut " if "mutclient" in opts else "")
         owner_name = name
         self.emit(sig, owner_name, None, "sig", src="%s:%d" % (rel, src_line))
         label, labels = None, []
         ghost_lines, in_ghost = [], False
+        before_all, cur_anchor = [], None
         for lno, ln in block:
             if ln.startswith("//@rewrite"):
                 continue
             if ln.strip() == "//@insert start":
-                in_ghost = True; continue
+                in_ghost = True; cur_anchor = None; continue
+            mba = re.match(r"//@insert\s+before-all\s+`(.*)`\s*$", ln)
+            if mba:
+                in_ghost = True; cur_anchor = [mba.group(1), [], lno]; before_all.append(cur_anchor); continue
+            if in_ghost and cur_anchor is not None:
+                cur_anchor[1].append(ln); continue
             if in_ghost:
                 ghost_lines.append((lno, ln)); continue
             m = re.match(r"\s*//\s*\[([^\]]*)\]", ln)
@@ -840,6 +870,19 @@ class Unit:
                 label = m.group(1).strip() or None
                 if label and label not in labels: labels.append(label)
             self.emit(ln, owner_name, label, "spec", src="%s:%d" % (os.path.basename(self.vc_path), lno))
+        for (anchor, glines, lno) in before_all:
+            atoks = [t for t in lex(anchor) if t.kind in CODE]
+            btoks = lex(new_expr)
+            code = [q for q, t in enumerate(btoks) if t.kind in CODE]
+            offs = []
+            for ci in range(len(code) - len(atoks) + 1):
+                if all(btoks[code[ci + d]].text == atoks[d].text for d in range(len(atoks))):
+                    offs.append(btoks[code[ci]].start)
+            if not offs:
+                raise AnchorLost("%s: arm Request::%s: anchor `%s` not found" % (rel, variant, anchor))
+            for off in reversed(offs):
+                new_expr = new_expr[:off] + "\n" + "\n".join(glines) + "\n" + new_expr[off:]
+                self.counts.add("ghost-insertions")
         self.emit("{", owner_name, None, "glue")
         for lno, ln in ghost_lines:
             self.emit(ln, owner_name, None, "ghost", src="%s:%d" % (os.path.basename(self.vc_path), lno))
